@@ -270,8 +270,10 @@ def _strings(node):
             yield n.value
 
 
-def _classname_expr(e, nodevar):
-    """True if e denotes the class name of `nodevar`: nodevar.__class__.__name__ or type(nodevar).__name__."""
+def _classname_expr(e, nodevar, local_defs=None):
+    """True if e denotes the class name of `nodevar`: nodevar.__class__.__name__ or type(nodevar).__name__ (possibly through a local bound once to it)."""
+    if isinstance(e, ast.Name) and local_defs and len(local_defs.get(e.id, [])) == 1:
+        return _classname_expr(local_defs[e.id][0], nodevar)
     if isinstance(e, ast.Attribute) and e.attr == "__name__":
         v = e.value
         if isinstance(v, ast.Attribute) and v.attr == "__class__" and isinstance(v.value, ast.Name) and v.value.id == nodevar:
@@ -302,7 +304,7 @@ def _check_visit(ctx, mod, nv, viol):
             why = "the only fallback must be self.generic_visit"
         if ok:
             cands = [meth] if not isinstance(meth, ast.Name) else local_defs.get(meth.id, [])
-            ok = bool(cands) and all(isinstance(c, ast.BinOp) and isinstance(c.op, ast.Add) and isinstance(c.left, ast.Constant) and c.left.value == "visit_" and _classname_expr(c.right, nodevar) for c in cands)
+            ok = bool(cands) and all(isinstance(c, ast.BinOp) and isinstance(c.op, ast.Add) and isinstance(c.left, ast.Constant) and c.left.value == "visit_" and _classname_expr(c.right, nodevar, local_defs) for c in cands)
             why = "method name must be 'visit_' + the node's class name"
     ctx.oblige("R-C14.3", "NodeVisitor.visit dispatch", ok, sample={"rule": "R-C14.3", "construct": S.unparse(getattrs[0]) if getattrs else None})
     if not ok:
@@ -310,12 +312,12 @@ def _check_visit(ctx, mod, nv, viol):
     # cache: any subscript store / .get must be on an attribute of self keyed by the class name
     for n in ast.walk(fn):
         if isinstance(n, ast.Subscript) and isinstance(n.ctx, ast.Store):
-            okc = isinstance(n.value, ast.Attribute) and isinstance(n.value.value, ast.Name) and n.value.value.id == selfname and _classname_expr(n.slice, nodevar)
+            okc = isinstance(n.value, ast.Attribute) and isinstance(n.value.value, ast.Name) and n.value.value.id == selfname and _classname_expr(n.slice, nodevar, local_defs)
             ctx.oblige("R-C14.3", "NodeVisitor.visit cache store", okc)
             if not okc:
                 viol("R-C14.3", "NodeVisitor", "visit-cache", "dispatch cache must live on the instance and be keyed by the node's class name", n)
         if isinstance(n, ast.Call) and isinstance(n.func, ast.Attribute) and n.func.attr == "get" and n.args:
-            okc = isinstance(n.func.value, ast.Attribute) and isinstance(n.func.value.value, ast.Name) and n.func.value.value.id == selfname and _classname_expr(n.args[0], nodevar)
+            okc = isinstance(n.func.value, ast.Attribute) and isinstance(n.func.value.value, ast.Name) and n.func.value.value.id == selfname and _classname_expr(n.args[0], nodevar, local_defs)
             ctx.oblige("R-C14.3", "NodeVisitor.visit cache lookup", okc)
             if not okc:
                 viol("R-C14.3", "NodeVisitor", "visit-cache-get", "dispatch cache must be read from the instance, keyed by the node's class name", n)
